@@ -129,7 +129,7 @@ theorem crash_prefix_partial_content (orig : Tree) (hs : List Hunk) (cfg : Cfg) 
       intro h hm
       simpa using hno h hm
     rw [hed] at hc'
-    simp [Edits.applyEdits, Edits.run] at hc'
+    simp [Edits.applyEditsG, Edits.runG] at hc'
     subst hc'
     exact h
 
